@@ -105,13 +105,16 @@ def ensure(flavour, tools=None, quiet=True):
     """Return the cache dir for this flavour, building whatever is missing.  Raises on failure."""
     fl = FLAVOURS[flavour]
     key = lib_key(flavour)
-    d = os.path.join(CACHE, "%s-%s" % (flavour, key))
+    # scratch copies of the repository (VERIF_REPO=/tmp/...) get their own cache namespace so that
+    # mutation runs never evict the cache of /repo itself
+    ns = flavour if REPO == "/repo" else "%s@%s" % (flavour, hashlib.sha256(REPO.encode()).hexdigest()[:8])
+    d = os.path.join(CACHE, "%s-%s" % (ns, key))
     os.makedirs(CACHE, exist_ok=True)
     # drop stale entries of this flavour
     for e in os.listdir(CACHE):
-        if e.startswith(flavour + "-") and e != os.path.basename(d):
+        if e.startswith(ns + "-") and e != os.path.basename(d):
             shutil.rmtree(os.path.join(CACHE, e), ignore_errors=True)
-    lockf = os.path.join(CACHE, flavour + ".lock")
+    lockf = os.path.join(CACHE, ns + ".lock")
     import fcntl
     with open(lockf, "w") as lk:
         fcntl.flock(lk, fcntl.LOCK_EX)
